@@ -90,7 +90,12 @@ TrieLang(clusters, dev) == GraphLang(AsGraph(BuildTrie(clusters, dev), 0))
 RECURSIVE LexLess(_, _)
 LexLess(x, y) == IF x = <<>> THEN y # <<>> ELSE IF y = <<>> THEN FALSE
                  ELSE IF Head(x) # Head(y) THEN Head(x) < Head(y) ELSE LexLess(Tail(x), Tail(y))
-TcLess(x, y) == IF Len(x) # Len(y) THEN Len(x) < Len(y) ELSE LexLess(x, y)
+(* atoms 1..6 stand for a..f (one byte each), 7 for a two-byte BMP character (e acute), 8 for an astral one     *)
+(* (four bytes); atom order = code point order.  9, 10, 11 are 7 and 8 AFTER escaping (see EscAtom below).      *)
+AtomBytes(a) == CASE a = 7 -> 2 [] a = 8 -> 4 [] OTHER -> 1
+RECURSIVE WBytes(_)
+WBytes(w) == IF w = <<>> THEN 0 ELSE AtomBytes(Head(w)) + WBytes(Tail(w))
+TcLess(x, y) == IF WBytes(x) # WBytes(y) THEN WBytes(x) < WBytes(y) ELSE LexLess(x, y)
 SortTcs(T) == SortSeq(SetToSeq(T), TcLess)
 
 (***************************************************************************)
@@ -283,8 +288,13 @@ XOpt(x) == [t |-> "opt", x |-> x]
 
 XIsNone(e) == e.t = "none"
 XIsEmpty(e) == e.t = "lit" /\ e.gs = <<>>
+(* char_count(is_non_ascii_char_escaped): the length of the text as it will be written - an escaped character *)
+(* counts with all the characters of its \u{...} form (always the non-surrogate form: `escape(c, false)`)      *)
+AtomWidth(a) == CASE a = 9 -> 6 [] a \in {10, 11} -> 9 [] OTHER -> 1
+RECURSIVE UWidth(_)
+UWidth(u) == IF u = <<>> THEN 0 ELSE AtomWidth(Head(u)[1]) + UWidth(Tail(u))
 RECURSIVE CharCount(_)
-CharCount(gs) == IF gs = <<>> THEN 0 ELSE Len(Head(gs).u) + CharCount(Tail(gs))
+CharCount(gs) == IF gs = <<>> THEN 0 ELSE UWidth(Head(gs).u) + CharCount(Tail(gs))
 XIsSingle(e) == \/ e.t = "cc"
                 \/ (e.t = "lit" /\ e.gs # <<>> /\ CharCount(e.gs) = 1 /\ e.gs[1].hi = 1)
 RECURSIVE XLen(_)
@@ -430,7 +440,15 @@ XLang(e) == IF XIsNone(e) THEN {} ELSE LangOf(XToLang(e))
 (* S11  src/format.rs / grapheme.rs: printing.  The bounded models use the *)
 (* atoms 1, 2, 3, ... for the characters a, b, c, ...                      *)
 (***************************************************************************)
-Letters == <<"a", "b", "c", "d", "e", "f">>
+(* E / P: placeholders for the two non-ASCII characters (the harness substitutes e acute and U+1F4A9) *)
+Letters == <<"a", "b", "c", "d", "e", "f", "E", "P", "\\u{e9}", "\\u{1f4a9}", "\\u{d83d}\\u{dca9}">>
+(* S11 escaping (grapheme.rs escape / escape_non_ascii_chars), applied here when the symbols are created: the *)
+(* mapping is injective and keeps the order, so trie, minimisation and elimination are unaffected            *)
+EscAtom(a, cfg) == IF ~cfg.escape THEN a
+                   ELSE CASE a = 7 -> 9 [] a = 8 -> (IF cfg.surr THEN 11 ELSE 10) [] OTHER -> a
+EscWord(w, cfg) == [i \in DOMAIN w |-> EscAtom(w[i], cfg)]
+(* is_single_escape_sequence: one \u{...} can take a quantifier without a group, a surrogate pair cannot *)
+AtomSingle(a) == a # 11
 RECURSIVE Join(_)
 Join(ss) == IF ss = <<>> THEN "" ELSE Head(ss) \o Join(Tail(ss))
 Digits == <<"0", "1", "2", "3", "4", "5", "6", "7", "8", "9">>
@@ -443,7 +461,7 @@ RECURSIVE PrintSym(_, _)
 PrintSym(sym, cfg) ==
   LET value == IF sym.nest = <<>> THEN Join([i \in DOMAIN sym.u |-> Letters[sym.u[i][1]]])
                ELSE Join([i \in DOMAIN sym.nest |-> PrintSym(sym.nest[i], cfg)])
-      single == Len(sym.u) = 1
+      single == Len(sym.u) = 1 /\ AtomSingle(sym.u[1][1])
       body == IF single THEN value ELSE Grp(value, cfg)
   IN IF sym.lo = 1 /\ sym.hi = 1 THEN value
      ELSE IF sym.lo = sym.hi THEN body \o "{" \o NatStr(sym.lo) \o "}"
@@ -508,7 +526,8 @@ FallbackAltCl(tcs, cls) == LET sp == SortPairs([i \in DOMAIN tcs |-> <<tcs[i], c
 
 (* the whole pipeline on a set of words, no class / repetition conversion *)
 Pipeline(T, cfg, dev) ==
-  LET tcs == SortTcs(T)
+  LET sorted == SortTcs(T)
+      tcs == [i \in DOMAIN sorted |-> EscWord(sorted[i], cfg)]
       clusters == [i \in DOMAIN tcs |-> IF cfg.rep THEN RepConvert(PlainCluster(tcs[i]), cfg) ELSE PlainCluster(tcs[i])]
       trie == BuildTrie(clusters, dev)
       min == Minimize(trie, dev)
@@ -551,7 +570,7 @@ VSym(sym, cfg) ==
                ELSE LET RECURSIVE Cat(_)
                         Cat(k) == IF k > Len(sym.nest) THEN <<>> ELSE VSym(sym.nest[k], cfg) \o Cat(k + 1)
                     IN Cat(1)
-      single == Len(sym.u) = 1
+      single == Len(sym.u) = 1 /\ AtomSingle(sym.u[1][1])
       count == IF sym.lo = sym.hi THEN "{" \o NatStr(sym.lo) \o "}"
                ELSE "{" \o NatStr(sym.lo) \o "," \o NatStr(sym.hi) \o "}"
   IN IF sym.lo = 1 /\ sym.hi = 1 THEN value
